@@ -656,6 +656,7 @@ func TestC05(t *testing.T) {
 	}
 	// (2'') the predecessor sweep: every lint x its reporting objects as predecessor x every object of the kind
 	predecessorSweep(rec, func(s string) { t.Fatalf("%s", s) })
+	datedPredecessors(rec, func(s string) { t.Fatalf("%s", s) })
 	// (2') the soak history: an object met again after many distinct others gets its first verdict
 	soakHistory(rec, stats.Scale(1600, 12000), soakVisitC05, func(s string) { t.Fatalf("%s", s) })
 	// (2) history independence: stateful, model = memo of the first verdict per (DER, selection, config)
